@@ -193,8 +193,16 @@ func (c *Chain) Prepare(prop int, h int64, t time.Time, reqs *Requests) ([][]byt
 	if err != nil {
 		return nil, err
 	}
+	if len(pp.Txs) == 0 {
+		// BaseApp swallows the handler's error and answers with the (empty) list of transactions it was
+		// given: the proposer has nothing to propose, which every validator would refuse
+		return nil, ErrNoProposal
+	}
 	return pp.Txs, nil
 }
+
+// ErrNoProposal reports that PrepareProposal produced no block message (the handler failed).
+var ErrNoProposal = errors.New("PrepareProposal produced no proposal (the handler failed)")
 
 // Process runs ProcessProposal on node i.
 func (c *Chain) Process(i int, prop int, h int64, t time.Time, txs [][]byte, lc abci.CommitInfo, ev []abci.Misbehavior) (bool, error) {
